@@ -1,4 +1,5 @@
 import Rbp.Proofs.OutputCsv
+import Rbp.Proofs.Lossy
 import Rbp.Model.Hex
 import Rbp.Model.Script
 import Rbp.Model.Run
@@ -139,6 +140,10 @@ def answer (cmd : String) (line : String) : String :=
   | "block" => answerBlock toks
   | "varint" => answerVarint toks
   | "outfile" => answerOutfile toks
+  | "utf8" => (match toks with
+      | [h] => let bs := parseHex h
+               s!"{if L.valid bs then 1 else 0} {if (ByteArray.mk bs.toArray).validateUTF8 then 1 else 0} {fieldHex (L.lossy bs)}"
+      | _ => "bad-request")
   | "record" => answerRecord toks
   | "blkname" => answerBlkname toks
   | "compactsize" => answerCompact toks
